@@ -615,7 +615,12 @@ impl TcpConnection {
 
                 match (protocol, substream_id) {
                     (Some(protocol), Some(substream_id)) => {
-                        self.protocol_set
+                        // The protocol may have been dropped by the user in the meantime. That
+                        // only concerns this substream: the connection keeps running for the
+                        // other protocols (leaving the loop here would skip
+                        // `report_connection_closed()`).
+                        let _ = self
+                            .protocol_set
                             .report_substream_open_failure(protocol.clone(), substream_id, error)
                             .await
                             .inspect_err(|error| {
@@ -626,7 +631,7 @@ impl TcpConnection {
                                     ?error,
                                     "failed to register substream open failure to protocol"
                                 );
-                            })?;
+                            });
                     }
                     _ => {}
                 }
@@ -647,7 +652,10 @@ impl TcpConnection {
                     self.protocol_set.protocol_codec(&protocol),
                 );
 
-                self.protocol_set
+                // If the protocol is gone (dropped by the user) the substream is dropped with
+                // the failed send; the connection keeps running for the other protocols.
+                let _ = self
+                    .protocol_set
                     .report_substream_open(
                         self.peer,
                         protocol.clone(),
@@ -665,7 +673,7 @@ impl TcpConnection {
                             ?error,
                             "failed to register opened substream to protocol",
                         );
-                    })?;
+                    });
             }
         }
 
